@@ -74,11 +74,13 @@ def cases(seed, tier, shard, nshards):
         yield {'program': p, 'features': sorted(g.features)}
 
 
-def real_text(program):
+def real_text(program, in_document=False):
     from plasTeX.TeX import TeX
     common.plastex_reset()
     tex = TeX()
-    tex.input(program)
+    # a third of the programs run as the body of a complete document (the definitions then live in the scope of the document
+    # environment, as they do in practice), the others as a bare token stream
+    tex.input(('\\documentclass{article}\\begin{document}%s\\end{document}' % program) if in_document else program)
     doc = tex.parse()
     return doc.textContent, doc
 
@@ -97,7 +99,9 @@ def run(case, st):
         return {}
     h0 = st.counters['expandDef_with_params']
     try:
-        got, doc = real_text(p)
+        indoc = common.case_hash(case)[2] % 3 == 0
+        st.feature('program-runs-as', 'document-body' if indoc else 'bare-token-stream')
+        got, doc = real_text(p, indoc)
     except common.CaseTimeout:
         raise
     except Exception as e:
